@@ -45,6 +45,7 @@ fn main() {
     };
     let mut stubbed: Vec<String> = Vec::new();
     let mut stub_items: Vec<Value> = Vec::new();
+    let mut assumed_items: Vec<Value> = Vec::new();
 
     let unit: Value = serde_json::from_str(&read(&format!("{}/unit.json", unit_dir)))
         .unwrap_or_else(|e| die(&format!("unit.json: {}", e)));
@@ -109,7 +110,8 @@ fn main() {
     // ---- extracted sources ----
     for src in unit["sources"].as_array().unwrap_or_else(|| die("unit.json: no sources")) {
         let rel = src["file"].as_str().unwrap_or_else(|| die("source without file"));
-        let path = format!("{}/{}", repo, rel);
+        // an absolute path names a file derived from the repository on this run (macro-expanded source, build/expanded)
+        let path = if rel.starts_with('/') { rel.to_string() } else { format!("{}/{}", repo, rel) };
         let text = read(&path);
         let mut file = syn::parse_file(&text)
             .unwrap_or_else(|e| die(&format!("{}: rust parse error: {}", rel, e)));
@@ -174,6 +176,15 @@ fn main() {
                 false,
             );
         }
+        // "assumed": items of this source emitted as `external_body` signatures WITH their contract from the .vspec files
+        // (a contract proved in another unit, or an uninterpreted result named by a spec function). Listed in the map
+        // under `assumed` so that the evidence reports them as assumptions.
+        if let Some(a) = src["assumed"].as_array() {
+            let asels: Vec<String> = a.iter().map(|v| v.as_str().unwrap().to_string()).collect();
+            for g in select::extract(&file, &asels, rel, false) {
+                select::emit_group(g, rel, &text, module, &cfg, &contracts, &mut pr, &mut assumed_items, &mut rules_fired, &mut used_contracts, false, true);
+            }
+        }
         // auto-stubs (second pass of the driver): items the extracted code refers to but that are not
         // part of the unit are emitted as `external_body` signatures without any contract
         if !stubs.is_empty() && src["macro"].as_str().is_none() {
@@ -227,6 +238,7 @@ fn main() {
         "items": items_map,
         "rules_fired": rules_fired,
         "stubbed": stub_items,
+        "assumed": assumed_items,
         "lines": line_map,
     });
     fs::write(out_map, serde_json::to_string(&map).unwrap())
